@@ -5,7 +5,8 @@ From FV.C13 Require Import Model ProofsMat ProofsInc.
 From FV.C14 Require Import Model.
 Open Scope nat_scope.
 
-Definition ROps : Ops R := mkOps R 0%R 1%R Rplus Rmult Rdiv INR.
+Definition ROps : Ops R :=
+  mkOps R 0%R 1%R Rplus Rmult Rdiv INR (fun x => if Rlt_dec x 0 then true else false).
 
 Definition rsum (l : list R) : R := fold_right Rplus 0%R l.
 Lemma osum_R l : osum ROps l = rsum l.
@@ -319,43 +320,58 @@ Proof.
 Qed.
 
 (* ---------------------------------------------------------- inversion of e2n *)
-Lemma e2n_inv {T} (O : Ops T) m ef o wm v w res :
-  e2n O m ef o wm v w = Some res ->
-  length v = length (elems_of (m_blocks m)) /\
-  exists Im, incidence m o = Some Im /\
-    if ef then res = e2n_effective_of O Im v w
-    else exists wt, res = e2n_mean_of O Im wt v w /\
-      match wm with
-      | WFalse => wt = repeat (o1 O) (bnc Im)
-      | WExplicit wt' => wt = wt' /\ length wt' = bnc Im
-      | WImplicit by_id mu => implicit_weights by_id mu (m_blocks m) = Some wt
-      end.
+Definition weights_described {T} (O : Ops T) (m : mesh) (Im : bmat) (raise_neg : bool)
+           (wm : wmode) (wt : list T) : Prop :=
+  match wm with
+  | WFalse => wt = repeat (o1 O) (bnc Im)
+  | WExplicit wt' => wt = wt' /\ length wt' = bnc Im
+  | WImplicit by_id mu =>
+      implicit_weights by_id mu (m_blocks m) = Some wt /\
+      (raise_neg = true -> existsb (onegb O) wt = false)
+  end.
+
+Lemma validate_metric_inv {T} (O : Ops T) rn wt0 wt :
+  validate_metric O rn wt0 = Some wt -> wt = wt0 /\ (rn = true -> existsb (onegb O) wt = false).
 Proof.
-  unfold e2n. destruct (Nat.eqb_spec (length v) (length (elems_of (m_blocks m)))); simpl; [|discriminate].
+  unfold validate_metric. destruct rn; simpl.
+  - destruct (existsb (onegb O) wt0) eqn:E; [discriminate|]. intros H; inversion H; subst. auto.
+  - intros H; inversion H; subst. split; [reflexivity|discriminate].
+Qed.
+
+Lemma e2n_call_inv {T} (O : Ops T) m mode o rn wm inc v w res :
+  e2n_call O m mode o rn wm inc v w = Some res ->
+  length v = length (elems_of (m_blocks m)) /\
+  exists Im, incidence_in_use m o inc = Some Im /\ bnc Im = length v /\
+    ((mode = "effective"%string /\ res = e2n_effective_of O Im v w) \/
+     (mode = "mean"%string /\
+      exists wt, res = e2n_mean_of O Im wt v w /\ weights_described O m Im rn wm wt)).
+Proof.
+  unfold e2n_call. destruct (Nat.eqb_spec (length v) (length (elems_of (m_blocks m)))); simpl; [|discriminate].
   intros H. split; [assumption|].
-  destruct (incidence m o) as [Im|]; [|discriminate]. exists Im. split; [reflexivity|].
-  destruct ef; [now inversion H|].
+  destruct (incidence_in_use m o inc) as [Im|]; [|discriminate]. exists Im. split; [reflexivity|].
+  destruct (String.eqb_spec mode "effective").
+  { destruct (Nat.eqb_spec (bnc Im) (length v)); [|discriminate]. inversion H. auto. }
+  destruct (String.eqb_spec mode "mean"); [|discriminate].
   destruct wm as [|wt'|by_id mu].
-  - inversion H. eexists. split; reflexivity.
-  - destruct (Nat.eqb_spec (length wt') (bnc Im)); [|discriminate]. inversion H.
-    exists wt'. auto.
-  - destruct (implicit_weights by_id mu (m_blocks m)) as [wt|]; [|discriminate]. inversion H.
-    exists wt. auto.
+  - destruct (Nat.eqb_spec (bnc Im) (length v)); [|discriminate]. inversion H.
+    split; [assumption|]. right. split; [assumption|]. eexists. split; reflexivity.
+  - destruct (Nat.eqb_spec (length wt') (bnc Im)); [|discriminate].
+    destruct (Nat.eqb_spec (bnc Im) (length v)); [|discriminate]. simpl in H. inversion H.
+    split; [assumption|]. right. split; [assumption|]. exists wt'. simpl. auto.
+  - destruct (implicit_weights by_id mu (m_blocks m)) as [wt0|] eqn:Ei; [|discriminate].
+    destruct (validate_metric O rn wt0) as [wt|] eqn:Ev; [|discriminate].
+    destruct (Nat.eqb_spec (length wt) (bnc Im)); [|discriminate].
+    destruct (Nat.eqb_spec (bnc Im) (length v)); [|discriminate]. simpl in H. inversion H.
+    apply validate_metric_inv in Ev. destruct Ev as [-> Hn].
+    split; [assumption|]. right. split; [assumption|]. exists wt0. simpl. auto.
 Qed.
 
 (* ------------------------------------------------- mesh-level statements *)
 Open Scope R_scope.
 
-Definition weights_described {T} (O : Ops T) (m : mesh) (Im : bmat) (wm : wmode) (wt : list T) : Prop :=
-  match wm with
-  | WFalse => wt = repeat (o1 O) (bnc Im)
-  | WExplicit wt' => wt = wt' /\ length wt' = bnc Im
-  | WImplicit by_id mu => implicit_weights by_id mu (m_blocks m) = Some wt
-  end.
-
-Lemma e2n_mean_spec m o wm v w res :
-  e2n ROps m false o wm v w = Some res ->
-  exists Im wt, incidence m o = Some Im /\ weights_described ROps m Im wm wt /\
+Lemma e2n_mean_spec m o rn wm inc v w res :
+  e2n_call ROps m "mean" o rn wm inc v w = Some res ->
+  exists Im wt, incidence_in_use m o inc = Some Im /\ weights_described ROps m Im rn wm wt /\
     length res = bnr Im /\
     (* convex combination *)
     (forall i c, (i < bnr Im)%nat -> (c < w)%nat -> wsum Im wt i <> 0 ->
@@ -373,13 +389,29 @@ Lemma e2n_mean_spec m o wm v w res :
        (forall j, (j < bnc Im)%nat -> entry Im i j = true -> lo <= cell ROps v j c <= hi) ->
        lo <= cell ROps res i c <= hi).
 Proof.
-  intros H. apply e2n_inv in H. destruct H as [_ [Im [HI [wt [-> Hw]]]]].
+  intros H. apply e2n_call_inv in H. destruct H as [_ [Im [HI [_ [[Hm _]|[_ [wt [-> Hw]]]]]]]].
+  { discriminate. }
   exists Im, wt. split; [exact HI|]. split; [exact Hw|]. split.
   { unfold e2n_mean_of. now rewrite map_length, seq_length. }
   split; [|split].
   - intros. now apply e2n_mean_convex.
   - intros. eapply e2n_mean_const; eauto.
   - intros. eapply e2n_mean_bounds; eauto.
+Qed.
+
+(* with raise_negative_volume=True the implicit weights in use are >= 0 *)
+Lemma weights_validated_nonneg m Im wt by_id mu :
+  weights_described ROps m Im true (WImplicit by_id mu) wt -> forall j, 0 <= nth j wt 0.
+Proof.
+  intros [_ Hn] j. specialize (Hn eq_refl).
+  destruct (Nat.lt_ge_cases j (length wt)) as [Hj|Hj].
+  - assert (Hin : In (nth j wt 0) wt) by (apply nth_In; exact Hj).
+    destruct (Rlt_dec (nth j wt 0) 0) as [Hlt|Hge]; [|lra].
+    exfalso. assert (existsb (onegb ROps) wt = true).
+    { apply existsb_exists. exists (nth j wt 0). split; [exact Hin|]. simpl.
+      destruct (Rlt_dec (nth j wt 0) 0); [reflexivity|contradiction]. }
+    congruence.
+  - rewrite nth_overflow by exact Hj. lra.
 Qed.
 
 Lemma col_count_pos Im i j : (i < bnr Im)%nat -> entry Im i j = true -> col_count Im j <> 0%nat.
@@ -390,9 +422,9 @@ Proof.
   destruct (filter _ _); [contradiction|simpl; lia].
 Qed.
 
-Lemma e2n_effective_spec m o wm v w res :
-  e2n ROps m true o wm v w = Some res ->
-  exists Im, incidence m o = Some Im /\ length res = bnr Im /\
+Lemma e2n_effective_spec m o rn wm inc v w res :
+  e2n_call ROps m "effective" o rn wm inc v w = Some res ->
+  exists Im, incidence_in_use m o inc = Some Im /\ length res = bnr Im /\
     (forall i c, (i < bnr Im)%nat -> (c < w)%nat ->
        cell ROps res i c =
        rsum (map (fun j => if entry Im i j then cell ROps v j c / INR (col_count Im j) else 0)
@@ -402,7 +434,8 @@ Lemma e2n_effective_spec m o wm v w res :
        rsum (map (fun i => cell ROps res i c) (seq 0 (bnr Im)))
        = rsum (map (fun j => cell ROps v j c) (seq 0 (bnc Im)))).
 Proof.
-  intros H. apply e2n_inv in H. destruct H as [_ [Im [HI ->]]].
+  intros H. apply e2n_call_inv in H. destruct H as [_ [Im [HI [_ [[_ ->]|[Hm _]]]]]].
+  2:{ discriminate. }
   exists Im. split; [exact HI|]. split.
   { unfold e2n_effective_of. cbv zeta. now rewrite map_length, seq_length. }
   split.
